@@ -34,7 +34,7 @@ def run(ctx):
     ctx.assume("the reader drops the lexicographically last chunk file (documented in build_stack_of_chunk_names); the spec follows it")
 
     # 1. exhaustive: design model of the reader vs the property, all small databases
-    max_slot = 9 if ctx.thorough else 6
+    max_slot = 9 if ctx.thorough else 7
     cfg = ctx.path("MC.cfg")
     src = open(os.path.join(vlib.SPEC, SPEC, "MCImmutableDb.cfg")).read()
     open(cfg, "w").write(src.replace("MaxSlot = 7", "MaxSlot = %d" % max_slot))
